@@ -27,7 +27,8 @@ PROFILES = {
                 nactions=[1, 2, 3, 5, 6], action_p=0.4, panic_across_held_p=0.35),
     "C14": dict(axes=False, max_events=50, nexit=[0, 1, 2, 2, 3, 3], action_p=0.3),
 }
-SIZES = {"quick": 8000, "thorough": 400000}
+SHRINK_DEADLINE = None
+SIZES = {"quick": 8000, "thorough": 120000}
 
 
 def load_corpus(prop):
@@ -64,7 +65,32 @@ def shrink(case, binary, workdir, still_fails):
         res = dev.execute(cands, binary, workdir, tag="shrink", jobs=8)
         return [still_fails(c, res[str(c.cid)]) for c in cands]
 
+    # shrinking is a convenience for the reader of the replay: it gets two minutes (long sweeps against the slow sink take
+    # a second per candidate), after that the case is reported as far as it has been reduced
+    global SHRINK_DEADLINE
+    if SHRINK_DEADLINE is None:
+        SHRINK_DEADLINE = time.time() + 150       # for all reports of one run together
+    deadline = SHRINK_DEADLINE
+    # long histories first lose whole chunks (halves, quarters, … down to 8 events), all candidates of one size at once
+    size = len(cur.events) // 2
+    while size >= 8 and time.time() < deadline:
+        starts = list(range(0, len(cur.events), size))
+        cands = [build(cur, set(range(st, min(len(cur.events), st + size))), set(), "k%d" % n) for n, st in enumerate(starts)]
+        ok = fails(cands)
+        hit = [st for st, f in zip(starts, ok) if f]
+        if hit:
+            # drop every chunk that can be dropped on its own, if they can be dropped together; else the first one
+            allc = build(cur, {i for st in hit for i in range(st, min(len(cur.events), st + size))}, set(), "ka")
+            if len(hit) > 1 and fails([allc])[0]:
+                cur = allc.clone("shrink")
+            else:
+                cur = build(cur, set(range(hit[0], min(len(cur.events), hit[0] + size))), set(), "shrink")
+            size = min(size, len(cur.events) // 2)
+        else:
+            size //= 2
     for _ in range(40):
+        if time.time() > deadline:
+            break
         items = [("e", i) for i in range(len(cur.events))] + [("c", i) for i, l in enumerate(cur.cfg) if removable_cfg(l)]
         if cur.disconnect:
             c = cur.clone("d")
